@@ -549,6 +549,11 @@ def body_scheme(inp, mesh, scheme, sscale, img=IMG, pd=False):
     elif scheme == "ConstantZeroth":
         matrix_checks(A, E, tag, H, n, x, dominance="weak", pd_direct=pd, pd_strict=False)
     elif scheme in ("Zeroth", "BrightnessZeroth"):
+        if scheme == "BrightnessZeroth":
+            # proof aid only (nothing about the weights is demanded): lets the solver see the diagonal as squares of opaque terms
+            wz = hx.attempt(reg.regularization_weights_from, linear_obj=mapper)
+            if not isinstance(wz, hx.Raised):
+                abstract_terms(np.asarray(hx.unwrap(wz)))
         diagonal_checks(A, E, tag, H, n)
     elif scheme in ("ConstantSplit", "AdaptiveBrightnessSplit"):
         # PD certificate: H is ridge*I + the rw-weighted Gram matrix of the cross rows
@@ -773,7 +778,7 @@ def cases(tier):
     for m in meshes:
         out.append(("case_kernels", {"mesh": m, "pd": pd_ok(m)}, slow if pd_ok(m) and not q else {}))
     for n in ([2, 3, 4] if q else [2, 3, 4, 5]):
-        out.append(("case_kernels", {"mesh": ["graph", n], "pd": True}, {"split": 0 if n < 5 else 4}))
+        out.append(("case_kernels", {"mesh": ["graph", n], "pd": True}, {"split": {2: 0, 3: 0, 4: 3, 5: 5}[n]}))
     # scheme classes on real mappers
     cmeshes = [["rect", 3, 3], ["rect", 3, 4], ["del", "D5"], ["del", "D7"]] + ([] if q else [["rect", 4, 4], ["rect", 4, 3], ["rect", 5, 5],
                                                                                             ["del", "D6"], ["del", "D9"], ["del", "D12"]])
